@@ -246,7 +246,7 @@ def process_space(tier, seed):
         "model": ["NRTL"] if q else ["NRTL", "UNIQUAC"],
         "mode": ["vac", ("T", -20.0), ("p", 0.5)],
         "prog": ["none", "poly"],
-        "curves": [spaces.CURVE_CONFIGS["one"], spaces.CURVE_CONFIGS["two"], spaces.CURVE_CONFIGS["oneB_molar"], spaces.CURVE_CONFIGS["oneC"]] if q else list(spaces.CURVE_CONFIGS.values()),
+        "curves": [spaces.CURVE_CONFIGS["one"], spaces.CURVE_CONFIGS["two"], spaces.CURVE_CONFIGS["oneB_molar"], spaces.CURVE_CONFIGS["oneC"], spaces.CURVE_CONFIGS["two_sameT"]] if q else list(spaces.CURVE_CONFIGS.values()),
         "init_perm": [None, {"values": (2.5e-2, 3.0e-5)}, {"values": (1.0e-2, 8.0e-5), "units": "GPU"}, {"values": (2.0e-2, 4.0e-9)}],
         "fit_kwargs": [{}, {"n_first": 1, "n_second": 1, "m_first": 0, "m_second": 0}] + ([] if q else [{"n_first": 2, "n_second": 1, "m_first": 1, "m_second": 1, "include_zero": True}]),
         "area": [0.05, 1.0], "amount": [50.0], "dt": core.lat([0.5, 2.0], seed)[:1] if q else core.lat([0.5, 2.0], seed),
@@ -265,7 +265,7 @@ def curve_space(tier, seed):
     alph = {
         "kind": ["curve"], "mixture": ["H2O_EtOH", "S2"], "model": ["NRTL"] if q else ["NRTL", "UNIQUAC"],
         "mode": ["vac", ("T", -20.0), ("p", 0.5)],
-        "curves": [spaces.CURVE_CONFIGS["one"], spaces.CURVE_CONFIGS["two"], spaces.CURVE_CONFIGS["oneB_molar"], spaces.CURVE_CONFIGS["oneC"]] if q else list(spaces.CURVE_CONFIGS.values()),
+        "curves": [spaces.CURVE_CONFIGS["one"], spaces.CURVE_CONFIGS["two"], spaces.CURVE_CONFIGS["oneB_molar"], spaces.CURVE_CONFIGS["oneC"], spaces.CURVE_CONFIGS["two_sameT"]] if q else list(spaces.CURVE_CONFIGS.values()),
         "init_perm": [None, {"values": (2.5e-2, 3.0e-5)}, {"values": (2.0e-2, 4.0e-9)}],
         "fit_kwargs": [{}, {"n_first": 1, "n_second": 1, "m_first": 0, "m_second": 0}, {"include_zero": True}],
         "x0": core.lat([0.1, 0.45], seed), "basis": ["weight", "molar"], "T": [333.15, 338.15, 318.15], "dx": [0.03, -0.01], "steps": [1, 4],
